@@ -295,6 +295,10 @@ func c11Fixed(g *lineGen, r *rng, tier string) {
 		for _, n := range []int{4095, 4096, 4097, 65536} {
 			g.roundTrip(fn, []string{lit("x"), bigRec(fr, n, uint64(n)), lit(""), bigRec(fr, n+1, 9)}, r, 1)
 		}
+		if fn == "lsp" || fn == "strict:78" || fn == "header:-" {
+			// several megabytes, below the 16 MiB bound of the one-piece read: grows, shrinks, grows again
+			g.roundTrip(fn, []string{bigRec(fr, 1<<22+4097, 5), lit("a"), bigRec(fr, 6<<20, 6), bigRec(fr, 100, 7), bigRec(fr, 1<<22, 8)}, r, 2)
+		}
 	}
 	// receive-buffer reuse policy: sizes that grow past 1 MiB and shrink below a quarter
 	seqs := [][]int{
